@@ -2,6 +2,7 @@
 stdin: JSON list of jobs {"seed": repr(k), "schemas": [source, ...], "repeat": n}; stdout: per job a list
 (one entry per repetition) of lists of canonical value texts (or 'raise:<Class>')."""
 import json
+import os
 import sys
 
 import absn
@@ -67,11 +68,37 @@ def one(req):
         inbox.put("go")
         out.append(done.get())
         t.join()
+    if req.get("thread") and hasattr(os, "fork"):
+        # a worker process forked from this one (multiprocessing's "fork" start method, pre-forking runners): it
+        # seeds itself exactly like its parent did and must get the parent's values; the parent is unaffected
+        rfd, wfd = os.pipe()
+        pid = os.fork()
+        if pid == 0:
+            status = 0
+            try:
+                os.close(rfd)
+                Random().set_seed(seed)
+                row = []
+                generate(row)
+                with os.fdopen(wfd, "w") as f:
+                    json.dump(row, f)
+            except BaseException:  # noqa
+                status = 3
+            finally:
+                os._exit(status)
+        os.close(wfd)
+        with os.fdopen(rfd) as f:
+            data = f.read()
+        os.waitpid(pid, 0)
+        out.append(json.loads(data) if data else ["forked worker failed"])
+        Random().set_seed(seed)
+        row = []
+        generate(row)
+        out.append(row)
     return out
 
 
 def main():
-    import os
     if os.environ.get("D42_CHILD_RECURSIONLIMIT"):
         sys.setrecursionlimit(int(os.environ["D42_CHILD_RECURSIONLIMIT"]))
     if os.environ.get("D42_CHILD_CWD"):
